@@ -9,7 +9,6 @@ read/call that a fresh object performs without exception is a failure ("raises b
 history").  Profiles additionally use an arithmetic oracle (raw arrays / product of normalisations).
 """
 import itertools
-import math
 
 import numpy as np
 
@@ -1148,7 +1147,6 @@ def eval_grid(case):
     cfg, seq = case['cfg'], case['seq']
     fails = []
     orig = _grid_new(cfg)
-    expected_params = [0.0, 0.0, 1.0]   # x_0, y_0, flux of orig as last set on orig
     expected_params = {'x_0': float(orig.x_0.value), 'y_0': float(orig.y_0.value),
                        'flux': float(orig.flux.value)}
     for i, (target, ipos, how) in enumerate(seq):
@@ -1292,10 +1290,6 @@ def _nontrivial(case):
         muts = [i for i, t in enumerate(seq) if t in PROF_MUT]
         return bool(muts)      # a final read of everything always follows
     return len(seq) >= 2
-
-
-def _jsonable(case):
-    return case
 
 
 def run(ctx):
